@@ -1055,6 +1055,14 @@ def corr_programs(chk: Check, rng: common.Rng, n: int, batch: Batch, n_rw: int =
                 stats["prediction_disagreements"] += 1
             return None
         stats["histories_checked"] = stats.get("histories_checked", 0) + 1
+        if ans["ok"] and len(set(real["outs"])) < len(real["outs"]) and ans["outs"] != real["after_outs"] and \
+                len(ans["outs"]) == len(real["after_outs"]):
+            # one value listed at several output POSITIONS and the stage replaced the positions separately
+            # (CSE undoing a duplicate): the snapshots cannot tell which position a value-level step meant,
+            # so the reconstructed history is ambiguous — count of outputs and declarations are still compared
+            stats["histories_ambiguous_duplicate_outputs"] = stats.get("histories_ambiguous_duplicate_outputs", 0) + 1
+            if [x and x[1] for x in ans["iface"]] == [x[1] for x in real["after_iface"]]:
+                return None
         if (not ans["ok"]) or ans["outs"] != real["after_outs"] or \
                 [x and x[1] for x in ans["iface"]] != [x[1] for x in real["after_iface"]]:
             disagreements.append({"program": case, "stage": stage, "history": real, "model": ans,
